@@ -425,7 +425,14 @@ func genSpec(r *rand.Rand, depth, maxDepth int, budget *int) NodeSpec {
 			c := genSpec(r, depth+1, maxDepth, budget)
 			s.Children = append(s.Children, c)
 			if r.IntN(6) == 0 && *budget > 0 {
-				s.Children = append(s.Children, c) // duplicate sibling
+				// duplicate sibling (of the line itself: copying a whole
+				// subtree at every level of a deep chain doubled the document
+				// sixteen times over in the thorough tier)
+				d := c
+				if len(d.Children) > 1 || (len(d.Children) == 1 && len(d.Children[0].Children) > 0) {
+					d.Children = nil
+				}
+				s.Children = append(s.Children, d)
 				*budget--
 			}
 		}
